@@ -298,7 +298,7 @@ func TestVerifBounded_C17_Manager(t *testing.T) {
 					}
 				}()
 				_ = m.StartAsync(context.Background())
-				ctx, cancel := context.WithTimeout(context.Background(), 500*time.Millisecond)
+				ctx, cancel := context.WithTimeout(context.Background(), 20*time.Second)
 				herr := m.AwaitHealthy(ctx)
 				cancel()
 				if !anyStartFail && herr != nil && !anyRunFail {
@@ -311,6 +311,11 @@ func TestVerifBounded_C17_Manager(t *testing.T) {
 					report(id+":ishealthy", "AwaitHealthy returned nil but IsHealthy is false while every service runs")
 				}
 				time.Sleep(15 * time.Millisecond)
+				// the failing run function returns 5 ms after it starts: wait (generously, the machine may be loaded) for the
+				// manager to notice; only a manager that stays healthy is a violation
+				for w := 0; anyRunFail && m.IsHealthy() && w < 1000; w++ {
+					time.Sleep(5 * time.Millisecond)
+				}
 				if anyRunFail && m.IsHealthy() {
 					report(id+":healthy-after-failure", "a service failed while running but the manager still reports healthy")
 				}
@@ -400,7 +405,7 @@ func TestVerifBounded_C17_ManagerHealthyUnreachable(t *testing.T) {
 			if len(m.ServicesByState()[Stopping]) != 1 {
 				report(id+":setup", "service 0 was not observed in Stopping")
 			} else {
-				ctx, cancel := context.WithTimeout(context.Background(), 500*time.Millisecond)
+				ctx, cancel := context.WithTimeout(context.Background(), 5*time.Second) // "at once", with room for a loaded machine
 				err := m.AwaitHealthy(ctx)
 				timedOut := ctx.Err() != nil
 				cancel()
